@@ -31,7 +31,7 @@ OpsJson(S) == S
 \* what the harness compares with the real node after the step
 Post ==
     [cursor |-> cursor', stored |-> OpsJson(stored'), assoc |-> {[tp |-> x[1], a |-> x[2]] : x \in assoc'},
-     stpc |-> st'.pc, stop |-> st'.op, stctx |-> st'.ctx, pubpc |-> pub'.pc, apppc |-> app'.pc,
+     stpc |-> st'.pc, stop |-> st'.op, stctx |-> st'.ctx, pubpc |-> pub'.pc, apppc |-> app'.pc, appop |-> app'.op,
      res |-> lastRes', chan |-> Len(chan'), up |-> up', policy |-> policy']
 
 NoArg == [none |-> TRUE]
@@ -88,6 +88,10 @@ S_SkipAck ==
     /\ ~done /\ done' = done
     /\ SkipAck /\ Log("SkipAck", [op |-> st.op])
     /\ Budgets
+S_AckEnter ==
+    /\ ~done /\ done' = done
+    /\ AckEnter /\ Log("AckEnter", [op |-> st.op])
+    /\ Budgets
 S_AckRead ==
     /\ ~done /\ done' = done
     /\ AckRead /\ Log("AckRead", [op |-> st.op])
@@ -116,6 +120,10 @@ S_AppAckBegin ==
     /\ ~done /\ done' = done
     /\ \E o \in stored : AppAckBegin(o) /\ Log("AppAckBegin", [op |-> o])
     /\ Budgets
+S_AppAckRead ==
+    /\ ~done /\ done' = done
+    /\ AppAckRead /\ Log("AppAckRead", [op |-> app.op])
+    /\ Budgets
 S_AppAckWriteTx ==
     /\ ~done /\ done' = done
     /\ AppAckWriteTx /\ Log("AppAckWriteTx", [op |-> app.op])
@@ -131,6 +139,7 @@ S_Crash ==
 
 \* a behaviour is complete when the node is up again after at least one crash, replay is over and
 \* everything was received; export happens there
+\* (export configs) overlapping acks happened in this behaviour
 Quiet ==
     /\ up /\ st.pc = "idle" /\ pub.pc = "idle" /\ pubq = <<>> /\ app.pc = "idle" /\ chan = <<>>
 
@@ -153,6 +162,7 @@ MCNext ==
     \/ S_TakeImported
     \/ S_PipelineProcess
     \/ S_SkipAck
+    \/ S_AckEnter
     \/ S_AckRead
     \/ S_AckWriteTx
     \/ S_AckCommit
@@ -160,6 +170,7 @@ MCNext ==
     \/ S_ReplayEnd
     \/ S_AppRecv
     \/ S_AppAckBegin
+    \/ S_AppAckRead
     \/ S_AppAckWriteTx
     \/ S_AppAckCommit
     \/ S_Crash
@@ -179,6 +190,7 @@ MC_CursorMonotone ==
     [][nReset' # nReset \/ \A a \in Authors : cursor'[a] >= cursor[a]]_mcvars
 
 MC_ForeignTopicRejected ==
-    [][\A o \in stored : (o.tp # T /\ AppAckBegin(o)) => (lastRes' = "rejected" /\ cursor' = cursor)]_mcvars
+    [][\A o \in stored : (o.tp # T /\ AppAckBegin(o)) =>
+            (cursor' = cursor /\ (lastRes' = "rejected" \/ (ackLock # "none" /\ app'.pc = "ackblocked")))]_mcvars
 
 =============================================================================
